@@ -1,6 +1,7 @@
 package checks
 
 import (
+	"github.com/jsightapi/jsight-api-go-library/kit"
 	"bufio"
 	"crypto/sha1"
 	"encoding/hex"
@@ -45,6 +46,7 @@ func init() {
 		Post:   c03Post,
 	})
 	fw.RegisterAux("c03fp", c03AuxFingerprint)
+	fw.RegisterAux("c03rel", c03AuxRelative)
 }
 
 func fingerprint(o *run.Obs) string {
@@ -591,7 +593,64 @@ func c03AuxFingerprint(args []string) int {
 	return 0
 }
 
+// aux c03rel <root file name>: processes the project in the current directory under the relative name it is given and
+// prints everything a caller can see of the result.
+func c03AuxRelative(args []string) int {
+	if len(args) < 1 {
+		return 2
+	}
+	j, err := kit.NewJapi(args[0])
+	if err != nil {
+		fmt.Printf("new-error %s\n", err)
+		return 0
+	}
+	if je := j.ValidateJAPI(); je != nil {
+		fmt.Printf("rejected index=%d line=%d quote=%q\n%s\n", je.Index(), je.Line(), je.Quote(), je.Error())
+		return 0
+	}
+	b, _ := j.ToJson()
+	fmt.Printf("accepted\n%s\n", b)
+	return 0
+}
+
+// c03Relocated: one project (relative names, same bytes, same options) in two directories, each processed by a fresh
+// process that stands in it: where the project lies on the disk is not part of the input.
+func c03Relocated(d *fw.Driver) {
+	projects := []map[string]string{
+		{"main.jst": "JSIGHT 0.3\n\nINCLUDE types/cat.jst\nGET /cats\n  200 @cat\n", "types/cat.jst": "TYPE @cat\n{\n  \"id\": @nosuch\n}\n"},
+		{"main.jst": "JSIGHT 0.3\nINCLUDE a.jst\n", "a.jst": "INCLUDE sub/b.jst\n", "sub/b.jst": "GET /x\n  Tags @undeclared\n  200 any\n"},
+		{"main.jst": "JSIGHT 0.3\nINCLUDE a.jst\nGET /ok\n  200 @t\n", "a.jst": "TYPE @t\n{\"a\": 1}\n"},
+		{"main.jst": "JSIGHT 0.3\nINCLUDE missing.jst\n"},
+		{"main.jst": "JSIGHT 0.3\nGET /a\n  200 any\n  !bad\n"},
+	}
+	for pi, files := range projects {
+		var outs []string
+		for _, where := range []string{"reloc/one", "reloc/elsewhere/deeper/two"} {
+			dir := filepath.Join(d.WorkDir, fmt.Sprintf("p%d", pi), where)
+			for name, content := range files {
+				full := filepath.Join(dir, name)
+				_ = os.MkdirAll(filepath.Dir(full), 0o755)
+				_ = os.WriteFile(full, []byte(content), 0o644)
+			}
+			cmd := exec.Command(d.Self, "aux", "c03rel", "main.jst")
+			cmd.Dir = dir
+			b, err := cmd.CombinedOutput()
+			if err != nil {
+				d.AddInconclusive(fmt.Sprintf("relocated project %d: %v %s", pi, err, fw.Short(b, 200)))
+				return
+			}
+			outs = append(outs, string(b))
+		}
+		d.Count("relocated_projects_compared", 1)
+		if outs[0] != outs[1] {
+			d.AddViolation("depends-on-directory", fmt.Sprintf("the same project (relative names) gives another result when it lies in another directory:\n--- in reloc/one\n%s\n--- in reloc/elsewhere/deeper/two\n%s", fw.Short([]byte(outs[0]), 600), fw.Short([]byte(outs[1]), 600)), nil)
+			return
+		}
+	}
+}
+
 func c03Post(d *fw.Driver) {
+	c03Relocated(d)
 	nproc := 3
 	if d.Tier == "thorough" {
 		nproc = 8
